@@ -35,6 +35,13 @@ def PairSet():
     return Ty("pairset", "bool", 2)
 
 
+def RowDict(elem, width):
+    """a dict from integer ids to fixed-width lists of numbers (e.g. points[elem] = [sum, count])"""
+    t = Ty("rowdict", elem.kind, 2)
+    t.width = width
+    return t
+
+
 def List(elem, ndim=1):
     return Ty("list", elem.kind, ndim)
 
